@@ -18,7 +18,7 @@
 
 use super::super::{Dir, DirEntry, Errno, FileType, Gid, Uid};
 use super::FileBody;
-use crate::path::{Component, Path};
+use crate::path::{Component, Path, PathBuf};
 use crate::str::UnixStr;
 use std::cell::RefCell;
 use std::collections::HashMap;
@@ -132,7 +132,36 @@ impl FileSystem {
     ///
     /// TODO Reject relative path
     pub fn get<P: AsRef<Path>>(&self, path: P) -> Result<Rc<RefCell<Inode>>, Errno> {
-        fn main(fs: &FileSystem, path: &Path) -> Result<Rc<RefCell<Inode>>, Errno> {
+        self.walk(path.as_ref(), /* follow_last */ false)
+            .map(|(inode, _)| inode)
+    }
+
+    /// Returns the absolute path of the existing file at the specified path
+    /// that contains no symbolic link, `.` or `..` components.
+    ///
+    /// All symbolic links in the path are followed, including one named by the
+    /// last component.
+    pub fn canonicalize<P: AsRef<Path>>(&self, path: P) -> Result<PathBuf, Errno> {
+        let (_, names) = self.walk(path.as_ref(), /* follow_last */ true)?;
+        let mut result = PathBuf::from("/");
+        for name in names {
+            result.push(UnixStr::from_bytes(&name));
+        }
+        Ok(result)
+    }
+
+    /// Resolves a path to an inode and the names of the directories and the
+    /// file leading to it from the root.
+    fn walk(
+        &self,
+        path: &Path,
+        follow_last: bool,
+    ) -> Result<(Rc<RefCell<Inode>>, Vec<Vec<u8>>), Errno> {
+        fn main(
+            fs: &FileSystem,
+            path: &Path,
+            follow_last: bool,
+        ) -> Result<(Rc<RefCell<Inode>>, Vec<Vec<u8>>), Errno> {
             // The path is split by hand rather than with `Path::components`
             // because the latter drops `.` components, which can only be
             // resolved in a directory.
@@ -144,6 +173,8 @@ impl FileSystem {
                 .map(<[u8]>::to_vec)
                 .collect();
             let mut nodes = vec![Rc::clone(&fs.root)];
+            // Names of the nodes except the root
+            let mut node_names = Vec::<Vec<u8>>::new();
             let mut link_count = 0;
             while let Some(name) = names.pop_front() {
                 let node_ref = nodes.last().unwrap().borrow();
@@ -158,6 +189,7 @@ impl FileSystem {
                         drop(node_ref);
                         if nodes.len() > 1 {
                             nodes.pop();
+                            node_names.pop();
                         }
                         continue;
                     }
@@ -177,7 +209,7 @@ impl FileSystem {
 
                 // A symbolic link is followed if it is not the last component
                 // or the path requires the result to be a directory.
-                if !names.is_empty() || ends_with_slash {
+                if !names.is_empty() || ends_with_slash || follow_last {
                     let target = match &child.borrow().body {
                         FileBody::Symlink { target } => Some(target.clone()),
                         _ => None,
@@ -193,6 +225,7 @@ impl FileSystem {
                         }
                         if target.starts_with(b"/") {
                             nodes.truncate(1);
+                            node_names.clear();
                         }
                         let target_names = target
                             .split(|&b| b == b'/')
@@ -205,16 +238,17 @@ impl FileSystem {
                 }
 
                 nodes.push(child);
+                node_names.push(name);
             }
 
             let node = nodes.pop().unwrap();
             if ends_with_slash && !matches!(&node.borrow().body, FileBody::Directory { .. }) {
                 return Err(Errno::ENOTDIR);
             }
-            Ok(node)
+            Ok((node, node_names))
         }
 
-        main(self, path.as_ref())
+        main(self, path, follow_last)
     }
 
     /// Maximum number of symbolic links followed in resolving a path
